@@ -391,8 +391,8 @@ var ruleText = "Per reactor (consensus manager incl. consensus state, block sync
 	"byte fields of length {0,1,19,20,21,31,32,33,64,65,66,65536,65537} plus original-1/+1 byte/bit-flipped/all-0/all-ff; sub-messages empty/garbage/unknown-field; repeated fields x{0,2,3,10001}; bit arrays bits{0,1,4,5,64,65,10000,10001,2^31,2^32-1,2^63,2^64-1} x elems{0,1,2,157}); " +
 	"every pair of (reduced-set) mutations on NewRoundStep and VoteSetBits; every truncation and every single-byte substitution (alphabet 00 01 08 7f 80 ff) of each valid encoding; every 1- and 2-byte string; " +
 	"votes/proposals/evidence mutated before signing (the peer is a validator); every single-field mutation of the proposed block by the round's proposer, raw and with header hashes recomputed; " +
-	"delivered on every channel id of the reactor plus a foreign id, in node states {wait-sync, NewHeight, Propose, Prevote, PrevoteWait, Precommit, Commit-waiting-for-parts at height 1; NewHeight, Propose, Commit-waiting at height 2} x peer {fresh, known (announced the node's round, gossiped to), removed}. " +
-	"Quick tier: pairs, byte-level cases and foreign channels in 3 of the 10 states; strings the decoder rejects (they end before any state is read) in 2 states and from fresh peers only. " +
+	"delivered on every channel id of the reactor plus a foreign id, in node states {wait-sync, NewHeight, Propose, Prevote (nil), Prevote (proposal and block received), PrevoteWait, Precommit, Commit-waiting-for-parts at height 1; NewHeight, Propose, Commit-waiting at height 2} x peer {fresh, known (announced the node's round, gossiped to), removed}. " +
+	"Thorough tier: pairs on every consensus message type. Quick tier: pairs, byte-level cases and foreign channels in 3 of the 11 states; strings the decoder rejects (they end before any state is read) in 2 states and from fresh peers only. " +
 	"A case is distinct by (reactor, channel, message type, field, mutation class, node state, peer state, stage reached) where stage is one of decode-error / rejected-peer-stopped / accepted-no-effect / answered / peer-state-changed / node-state-changed / contained-panic / handler-panic / reactor-specific effects."
 
 var assumptions = []string{
